@@ -214,13 +214,28 @@ def run(eng, R):
                 return True
         return False
 
+    # scheme B for the processed list: the whole sorted batch is appended once, on every normal path that processed entries
+    def records_whole(n):
+        st = n.stmt
+        if n.kind == "stmt" and isinstance(st, ast.AugAssign) and isinstance(st.op, ast.Add) and self_attr(st.target) == "_processed_entries":
+            v = st.value
+            if isinstance(v, ast.Call) and common.call_name(v) == "list" and v.args:
+                v = v.args[0]
+            return isinstance(v, ast.Name) and v.id in sorted_vars
+        for c in eng.calls_in_parts(n.ast_parts()):
+            if isinstance(c.func, ast.Attribute) and c.func.attr == "extend" and self_attr(c.func.value) == "_processed_entries" and c.args and isinstance(c.args[0], ast.Name) and c.args[0].id in sorted_vars:
+                return True
+        return False
+
+    whole_recorded, _ = g.all_paths_pass(head.id, records_whole)
+    whole_recorded = whole_recorded and any(records_whole(n) for n in g.stmt_nodes()) and not any(records_whole(n) for n in g.stmt_nodes() if n.id in body_ids)
     bad = None
     advancing = 0
     for pth in paths:
         ci, di, pi, wi = count(pth, is_cursor_inc), count(pth, is_count_inc), count(pth, is_processed_append), count(pth, is_any_count_write)
         if ci:
             advancing += 1
-        if not (ci == di == pi and wi == di and ci <= 1):
+        if not (ci == di and wi == di and ci <= 1 and (pi == ci or (pi == 0 and whole_recorded))):
             bad = (pth, ci, di, pi, wi)
             break
     R.info["fill-loop paths enumerated"] = len(paths)
@@ -245,8 +260,17 @@ def run(eng, R):
     pr_ok = False
     for n in ast.walk(f.node):
         if isinstance(n, ast.AugAssign) and isinstance(n.op, ast.Add):
-            if _subscript_of_data(n.target) and _index_repr(n.target) == "-1" and isinstance(n.value, ast.Call) and common.call_name(n.value) == "len" and is_tail(n.value.args[0]):
-                if head.id not in {m.id for m in g.nodes if m.stmt is n and False}:
+            if _subscript_of_data(n.target) and _index_repr(n.target) == "-1":
+                v = n.value
+                if isinstance(v, ast.Name):
+                    defs = [a.value for a in assigns if a.targets[0].id == v.id]
+                    if len(defs) == 1:
+                        v = defs[0]
+                if isinstance(v, ast.Call) and common.call_name(v) == "len" and is_tail(v.args[0]):
+                    of_ok = not _inside(head.stmt, n)
+                # equivalent form: len(sorted) - cursor
+                if isinstance(v, ast.BinOp) and isinstance(v.op, ast.Sub) and isinstance(v.left, ast.Call) and common.call_name(v.left) == "len" and v.left.args \
+                        and isinstance(v.left.args[0], ast.Name) and v.left.args[0].id in sorted_vars and isinstance(v.right, ast.Name) and v.right.id in cursor_vars:
                     of_ok = not _inside(head.stmt, n)
             if self_attr(n.target) == "_processed_entries":
                 v = n.value
@@ -257,7 +281,7 @@ def run(eng, R):
         if isinstance(n, ast.Call) and isinstance(n.func, ast.Attribute) and n.func.attr == "extend" and self_attr(n.func.value) == "_processed_entries" and n.args and is_tail(n.args[0]):
             pr_ok = not _inside(head.stmt, n)
     R.ob("G3c", "_fill_unprocessed:overflow-count", of_ok, eng.where(f), "entries remaining after the walk are not added to the overflow count _data[-1] with their number")
-    R.ob("G3c", "_fill_unprocessed:overflow-processed", pr_ok, eng.where(f), "entries remaining after the walk are not recorded as processed (a later rebin would lose them)")
+    R.ob("G3c", "_fill_unprocessed:overflow-processed", pr_ok or whole_recorded, eng.where(f), "entries remaining after the walk are not recorded as processed (a later rebin would lose them)")
     # pending list emptied on all normal exits that passed the loop
     def clears_pending(n):
         st = n.stmt
